@@ -192,7 +192,9 @@ fn scenario(cfg: &RunCfg, with_cache: bool, max_reqs: u32, max_clients: u32) -> 
 /// server is always behind the client (reads straddle request boundaries).
 fn long_lived(cfg: &RunCfg) -> Outcome {
     let dir = RunDir::new("c04");
-    let s = 256usize;
+    // a large in-memory threshold in some runs, so that bodies of several KiB travel through
+    // the connection buffer between padded heads
+    let s = gen::pick(&[256usize, 256, 7000]);
     let scfg = ServerCfg { max_conns: 1, small_body_len: s, cache_dir: Some(dir.path.clone()), with_permit: false };
     with(|w| {
         w.net.knobs.sock_cap = *w.tape.pick(&[262_144usize, 16_384, 3000]);
@@ -216,7 +218,7 @@ fn long_lived(cfg: &RunCfg) -> Outcome {
             r.method = "GET".into();
         }
         if let ReqKind::Known(k) = r.kind {
-            if k > s {
+            if k > s || s > 1000 {
                 r.kind = ReqKind::Known(gen::below(s as u32 + 1) as usize);
             }
         }
